@@ -7,7 +7,8 @@ package querylog
 //
 //vx:overlay internal/querylog/zz_vx_c07k.go
 //vx:entry vxC07Status reach=selected,not-selected,unknown-status
-//vx:entry vxC07Term reach=strict-hit,strict-miss,substring-hit,substring-miss,by-host,by-name,by-clientid,by-ip,quick-dropped
+//vx:entry vxC07Term reach=strict-hit,strict-miss,substring-hit,substring-miss,by-host,by-name,by-clientid,by-ip
+//vx:entry vxC07Quick reach=selected,quick-dropped
 
 import (
 	"context"
@@ -138,96 +139,122 @@ func vxC07ASCII(s string, forLine bool) {
 	}
 }
 
+// vxC07TermCase builds one entry with a single non-empty symbolic field (the
+// client address is always present), a symbolic term and the criterion.
+type vxC07TermCase struct {
+	host, name, cid, ipStr string
+	which                  int
+	term                   string
+	strict                 bool
+	cli                    *Client
+	e                      *logEntry
+	p                      *searchParams
+}
+
+func vxC07NewTermCase(forLine bool) *vxC07TermCase {
+	maxField, maxTerm := 2, 2
+	if vx.Thorough() {
+		maxField, maxTerm = 3, 3
+	}
+	c := &vxC07TermCase{}
+	// the shortest address text there is: "::1"
+	ip := net.IP{0, 0, 0, 0, 0, 0, 0, 0, 0, 0, 0, 0, 0, 0, 0, 1}
+	c.which = vx.Choice("field", 4)
+	n := 1
+	if c.which < 3 {
+		n = 1 + vx.Choice("fieldLen", maxField)
+	}
+	switch c.which {
+	case 0:
+		c.host = vx.String("host", n)
+		vxC07ASCII(c.host, forLine)
+	case 1:
+		c.name = vx.String("name", n)
+		vxC07ASCII(c.name, false)
+	case 2:
+		c.cid = vx.String("clientID", n)
+		vxC07ASCII(c.cid, forLine)
+	default:
+		ip = net.IP{byte(1 + vx.Choice("ip", 2)), 2, 3, 4}
+	}
+	c.term = vx.String("term", 1+vx.Choice("termLen", maxTerm))
+	vxC07ASCII(c.term, false)
+	c.strict = vx.Bool("quoted")
+	c.ipStr = ip.String()
+	if c.which == 1 {
+		c.cli = &Client{Name: c.name}
+	}
+	c.e = &logEntry{QHost: c.host, ClientID: c.cid, IP: ip, client: c.cli}
+	c.p = &searchParams{searchCriteria: []searchCriterion{{criterionType: ctTerm, value: c.term, strict: c.strict}}}
+	return c
+}
+
 // vxC07Term: the meaning of a search term (substring by default, whole value
 // when quoted, letter case ignored, over host name, client name, ClientID and
-// client address) and the quick pre-match on the stored line.
+// client address).
 func vxC07Term() {
-	maxField, maxTerm := 3, 2
-	if vx.Thorough() {
-		maxField, maxTerm = 4, 3
-	}
-	// one field is symbolic, the others are fixed values the term may also hit
-	which := vx.Choice("field", 4)
-	host, name, cid, ip := "ab.cd", "Kid Sam", "k-s1", net.IP{10, 0, 0, 1}
-	n := vx.Choice("fieldLen", maxField+1)
-	switch which {
-	case 0:
-		host = vx.String("host", n)
-		vxC07ASCII(host, true)
-	case 1:
-		name = vx.String("name", n)
-		vxC07ASCII(name, false)
-	case 2:
-		cid = vx.String("clientID", n)
-		vxC07ASCII(cid, true)
-	default:
-		vx.Assume(n == 0)
-		ip = net.IP{192, 168, 1, byte(10 + vx.Choice("ipLast", 3))}
-	}
-	term := vx.String("term", 1+vx.Choice("termLen", maxTerm))
-	vxC07ASCII(term, false)
-	strict := vx.Bool("quoted")
-	ipStr := ip.String()
-
-	var cli *Client
-	if vx.Choice("hasClient", 2) == 1 || which == 1 {
-		cli = &Client{Name: name}
-	} else {
-		name = ""
-	}
-	e := &logEntry{QHost: host, ClientID: cid, IP: ip, client: cli}
-	p := &searchParams{searchCriteria: []searchCriterion{{criterionType: ctTerm, value: term, strict: strict}}}
-
-	got := p.match(e)
+	c := vxC07NewTermCase(false)
+	got := c.p.match(c.e)
 
 	var want bool
-	fields := []string{host, name, cid, ipStr}
+	fields := []string{c.host, c.name, c.cid, c.ipStr}
 	marks := []string{"by-host", "by-name", "by-clientid", "by-ip"}
-	hit := -1
+	var hitOwn bool
 	for i, f := range fields {
 		var h bool
-		if strict {
-			h = vxC07EqualRef(f, term)
+		if c.strict {
+			h = vxC07EqualRef(f, c.term)
 		} else {
-			h = vxC07ContainsRef(f, term)
+			h = vxC07ContainsRef(f, c.term)
 		}
 		want = vx.Or(want, h)
-		if i == which {
-			if h {
-				hit = i
-			}
+		if i == c.which {
+			hitOwn = h
 		}
 	}
-	vx.Known("C07-containsfold-lower-k-s", vx.And(!strict, vx.Or(term[0] == 'k', term[0] == 's')))
+	ks := vx.And(!c.strict, vx.Or(c.term[0] == 'k', c.term[0] == 's'))
+	if vxC07Dev {
+		vx.Assume(!ks)
+	}
+	vx.Known("C07-containsfold-lower-k-s", ks)
 	vx.Assert(got == want, "a search term selects exactly the entries whose host, client name, ClientID or address contains it (equals it when quoted), ignoring letter case")
-	if hit >= 0 {
-		vx.Reach(marks[hit])
+	if hitOwn {
+		vx.Reach(marks[c.which])
 	}
 	switch {
-	case strict && got:
+	case c.strict && got:
 		vx.Reach("strict-hit")
-	case strict:
+	case c.strict:
 		vx.Reach("strict-miss")
 	case got:
 		vx.Reach("substring-hit")
 	default:
 		vx.Reach("substring-miss")
 	}
+}
 
+// vxC07Quick: the quick pre-match on the stored line never drops an entry that
+// the full match selects.
+func vxC07Quick() {
+	c := vxC07NewTermCase(true)
+	got := c.p.match(c.e)
 	// the line as json.Marshal frames it (field order of logEntry; CID is
 	// omitted when empty; the rule list of the result repeats "IP" further
 	// right)
-	line := `{"T":"2024-05-06T07:08:09.123456789Z","QH":"` + host + `","QT":"A","QC":"IN",`
-	if cid != "" {
-		line += `"CID":"` + cid + `",`
+	line := `{"T":"2024-05-06T07:08:09.123456789Z","QH":"` + c.host + `","QT":"A","QC":"IN",`
+	if c.cid != "" {
+		line += `"CID":"` + c.cid + `",`
 	}
-	line += `"CP":"","Upstream":"9.9.9.9:53","IP":"` + ipStr + `","Result":{"Rules":[{"IP":"0.0.0.0","Text":"||x^"}]},"Elapsed":7}`
+	line += `"CP":"","Upstream":"9.9.9.9:53","IP":"` + c.ipStr + `","Result":{"Rules":[{"IP":"0.0.0.0","Text":"||x^"}]},"Elapsed":7}`
 	finder := func(_ context.Context, _ *slog.Logger, clientID, addr string) *Client {
-		vx.Assert(clientID == cid && addr == ipStr, "the quick pre-match looks the client up by the stored ClientID and address")
-		return cli
+		vx.Assert(clientID == c.cid && addr == c.ipStr, "the quick pre-match looks the client up by the stored ClientID and address")
+		return c.cli
 	}
-	q := p.quickMatch(context.Background(), slog.Default(), line, finder)
+	q := c.p.quickMatch(context.Background(), slog.Default(), line, finder)
 	vx.Assert(vx.Implies(got, q), "the quick pre-match on the stored line never drops an entry the full match selects")
+	if got {
+		vx.Reach("selected")
+	}
 	if !q {
 		vx.Reach("quick-dropped")
 	}
